@@ -4,4 +4,4 @@ Extraction Language OCaml.
 Extraction "http.ml" force_number_types
   http_run http_response_run http_request_m init_rdr repo_terminated
   parsenum_unsigned_m scanf_m status_format
-  render expect expect_limited oversized wf_response wf_response_nolimits within_limits cb_ok request_layout resp_body.
+  render dec expect expect_limited oversized wf_response wf_response_nolimits within_limits cb_ok request_layout resp_body.
